@@ -120,6 +120,7 @@ def S(x: str) -> str:
 # running a history on the real code
 
 _TMP = tempfile.mkdtemp(prefix="c20-")
+__import__("atexit").register(__import__("shutil").rmtree, _TMP, ignore_errors=True)  # scratch images of this run
 _GIF = os.path.join(_TMP, "a.gif")
 Image.new("RGB", (4, 8), (200, 10, 10)).save(
     _GIF, save_all=True, append_images=[Image.new("RGB", (4, 8), (10, 200, 10))], duration=100, loop=0)
